@@ -773,7 +773,7 @@ def k11(ctx):
         return a[0]
 
     # -- the four kernel entry helpers
-    b = free("prove_symmetry")
+    b = mir.inline_view(crate, free("prove_symmetry"), keep=("check",))       # (an `Equation::flipped()` helper is looked through)
     bi, eq = one_agg(b, "proof::Equation")
     ctx.check((eq["l"], eq["r"]) == ("p1.r", "p1.l"), "symmetry-equation", "prove_symmetry(x) asks the kernel for x.r = x.l",
               "prove_symmetry(x) asks the kernel for %s = %s instead of x.r = x.l" % (eq["l"], eq["r"]), where_of(b, bi))
@@ -918,7 +918,7 @@ def k12(ctx):
         return False
 
     # symmetry
-    b = kernel("SymmetryProof")
+    b = mir.inline_view(crate, kernel("SymmetryProof"), keep=("assert_match_equation", "insert"))
     eqs = _aggs(b, "proof::Equation")
     okf = any((f.get("l"), f.get("r")) == ("self.0.r", "self.0.l") for _, f in eqs)
     ctx.check(okf, "symmetry-premise-flipped", "SymmetryProof::check compares the goal with (x.r, x.l)",
@@ -1049,11 +1049,23 @@ def k13(ctx):
     bs = [b for b in crate.by_name.get("pc_congruence", []) if b.kind != "Closure"]
     if len(bs) != 1:
         raise mir.AnchorMissing("EGraph::pc_congruence")
-    b = mir.inline_view(crate, bs[0], keep=("match_pcs", "prove_symmetry", "prove_transitivity", "prove_congruence", "src_id"))
+    b = mir.inline_view(crate, bs[0], keep=("match_pcs", "align_pc_with", "prove_symmetry", "prove_transitivity", "prove_congruence", "src_id"))
+    if any(c.callee and c.callee.target in crate.bodies and "ProvenContains" in crate.bodies[c.callee.target].local_ty(0) and crate.bodies[c.callee.target].id in getattr(b, "inlined", []) for c in bs[0].calls):
+        b = bs[0]          # (the aligning helper stays a call)
+
+    # the aligned pair: (a, b) = match_pcs(a, b) — or `a` itself and b = <helper>(a, b) when the helper answers only the renamed b
+    aligners = {c.callee.name for c in b.calls if c.callee and c.callee.target in crate.bodies and not b.blocks[c.bb]["cleanup"]
+                and [_nrm(b, b.role_of_operand(a)) for a in c.args] == ["self", "p2", "p3"] and "ProvenContains" in crate.bodies[c.callee.target].local_ty(0)}
 
     def N(r):
         s_ = _nrm(b, r)
-        s_ = s_.replace("match_pcs(self, p2, p3).0", "A").replace("match_pcs(self, p2, p3).1", "B")
+        for al in sorted(aligners):
+            if crate.bodies and any(x.name == al and x.local_ty(0).startswith("(") for x in crate.by_name.get(al, [])):
+                s_ = s_.replace("%s(self, p2, p3).0" % al, "A").replace("%s(self, p2, p3).1" % al, "B")
+            else:
+                s_ = s_.replace("%s(self, p2, p3)" % al, "B")
+                s_ = re.sub(r"\bp2\b(?=\.(node|pai)\b)", "A", s_)
+                s_ = s_.replace("src_id(p2)", "src_id(A)")
         return s_
     ret = N(b.role_of_local(0))
     # the tuple / struct returned: three components
@@ -1211,7 +1223,7 @@ def k15(ctx):
     bs = [b for b in crate.by_name.get("prove_congruence", []) if b.kind != "Closure" and "egraph::EGraph" in (b.impl_self or "")]
     if len(bs) != 1:
         raise mir.AnchorMissing("EGraph::prove_congruence")
-    b = bs[0]
+    b = mir.inline_view(crate, bs[0], keep=("try_insert", "lift_sem_congruence", "apply_slotmap_fresh", "compose_partial", "mk_syn_identity_applied_id", "get_syn_node", "alpha_normalize", "nullify_app_ids"))     # (the correspondence loops may live in a helper)
 
     pl_, pr_ = b.var_names.get(2) or "l", b.var_names.get(3) or "r"
 
